@@ -526,3 +526,11 @@ Proof.
   rewrite not_ok in Hy by exact Hv64.
   change (2 ^ 32) with 4294967296 in *. change (2 ^ 64) with 18446744073709551616 in *. lia.
 Qed.
+
+(* conditional_constprop.rs replaces x by the constant c in the region dominated by the true edge of
+   `cbr (cmp eq x c)`: sound because the run-time comparison yields 1 only for equal values. *)
+Lemma ccp_eq_sound k x c : Run.cmp PEq k x c = Val 1 -> x = c.
+Proof.
+  rewrite run_cmp_val. cbn [cmp_val]. intros H. inversion H as [Hb].
+  destruct (N.eqb_spec x c) as [He | He]; [exact He | discriminate Hb].
+Qed.
